@@ -52,13 +52,20 @@ class TimedHarness:
 
     def body(self, s, p):
         aoenv.reset()
-        ao = self.make_ao(s, p)
-        s.settle()
+        pre = bool(p.get("pre_start"))
+        if pre:
+            # the timed sources are created before start_at: the object's own thread does not exist yet
+            with H.QueueSize(p.get("qsize")):
+                ao = H.new_ao("ao", H.make_state(), start=False)
+        else:
+            ao = self.make_ao(s, p)
+            s.settle()
         ld = ao.locking_deque
         s.fingerprint = lambda: (tuple(H.label_of(x) for x in ld.deque), ld.locking_queue._qsize(), s.now,
                                  len(ao.posted_events_queue))
-        s.open_window()
-        w0 = s.steps
+        if not pre:
+            s.open_window()
+        w0 = 0 if pre else s.steps
         ids, raised = [], []
         for i, src in enumerate(p["sources"]):
             if src.get("at"):       # a source started later: the caller sleeps until that virtual instant
@@ -74,6 +81,11 @@ class TimedHarness:
                 ids.append(None)
                 raised.append(i)
                 s.note("source-rejected", i)
+        if pre:
+            if p.get("start_delay"):
+                sched.VTime.sleep(p["start_delay"])     # the sources tick for a while before the object is started
+            ao.start_at(H.make_state())
+            s.open_window()
         extra = self.actions(s, p, ao, ids) or {}
         s.settle()
         ops = [x for x in H.dq_ops(s, "ao") if x[0] >= w0]
